@@ -3,19 +3,23 @@ CONFIG = {
             "families: E1/E2 = all expression trees of depth <=2 (outer: every constructor and operator, inner: reduced alphabet) x payload patterns (distinct primes; falsy/str/None mixes) x a raising probe at every position; "
             "P2/P3 = every pair (all groupings) and triple (quick: seeded sample, thorough: all 24^3 x 5 groupings) of infix operators, plus unary/ifexp/lambda/chain mixes; "
             "S1-S3/A1/Q = single, multiple, tuple, subscript, attribute targets; augmented assignment on name/subscript/attribute x all 12 operators; R = seeded random trees of depth 3-4; "
-            "compared per case: (a) byte code of the module instruction for instruction (R column), (b) log of probe/container/call events, final values of r,x,y,z,u,v and the exception class (V column) between gpython, the model VM and the reference semantics; "
+            "second round: L1-L4 = lambda/def with positional and keyword-only defaults (12 signatures incl. *args/**kw, every default a probe or a short-circuit form) created, created inside larger expressions, called with 15 argument shapes (positional, keyword, *, **), every depth-1 form as a function body evaluated at call time, two calls of one function object; "
+            "K1/K2 = calls with keyword, * and ** arguments (6 callees x 3 positional x 4 keyword x 5 star x 5 double-star shapes, sampled in quick) alone and inside larger expressions / targets; U1 = starred targets (UNPACK_EX) x 10 right-hand sides; X1/X2 = 3-bound slices in load/store/augmented/del context and 216 literal bound triples on a str; DL = del of names, subscripts, attributes, tuples, pairs and sequences; R2 = seeded random programs over the extended fragment; "
+            "compared per case: (a) byte code of the module instruction for instruction (R column), nested code objects (lambda/def bodies) are listed recursively with their parameter lists, (b) log of probe/container/call events, final values of r,x,y,z,u,v and the exception class (V column) between gpython, the model VM and the reference semantics; "
             "non-trivial = at least two logged events; distinct = distinct input lines",
     "trusted_base": [
         "Lean 4.33.0 kernel; axioms allowed: propext, Classical.choice, Quot.sound (audited per theorem on every run)",
         "lean/GPy/C01/Spec.lean: my transcription of Python's evaluation rules (language reference 6.x, 7.1, 7.2) as a definitional interpreter over abstract primitive operations",
-        "lean/GPy/C01/Model.lean: hand transliteration of compile/compile.go (Expr, Stmt Assign/AugAssign/ExprStmt, tupleOrList, subscript, slice, callHelper) and vm/eval.go (do_* of the 35 opcodes used, RunFrame fetch loop); tied to /repo by the correspondence run only (compile tie: byte code equality; VM tie: same log/values/exception)",
-        "lean/GPy/C01/Concrete.lean: Python's builtin operations on small ints/strs/tuples/lists/dicts and the probe prelude of harness/c01.go; operations it does not vouch for are marked UNSPEC and such programs are compared at byte-code level only",
+        "lean/GPy/C01/Model.lean: hand transliteration of compile/compile.go (Expr, Stmt Assign/AugAssign/ExprStmt/Delete/FunctionDef, compileFunc + makeClosure without free variables, tupleOrList incl. UNPACK_EX, subscript, slice/buildSlice, callHelper incl. keywords/*/**, NameOp at module level and - for function bodies - LOAD_FAST/LOAD_GLOBAL) and vm/eval.go (do_* of the 38 model instructions = 64 opcodes used incl. _make_function, Vm.Call stack slicing, do_CALL_FUNCTION_VAR/KW/VAR_KW, do_UNPACK_EX, do_DELETE_*, do_BUILD_SLICE 2/3, RunFrame fetch loop); tied to /repo by the correspondence run only (compile tie: byte code equality; VM tie: same log/values/exception)",
+        "lean/GPy/C01/Concrete.lean: Python's builtin operations on small ints/strs/tuples/lists/dicts (incl. extended slicing), Python's binding of call arguments to parameters (positional, keyword, *args, **kw, defaults; merging of * and ** at the call site), and the probe prelude of harness/c01.go; operations it does not vouch for are marked UNSPEC and such programs are compared at byte-code level only",
         "parser: grouping is checked through the real parser (source has no redundant parentheses and the byte code must equal that of the intended tree); the grammar itself belongs to C06",
         "harness/c01.go (prelude, disassembler, value rendering) and checks/common.py",
     ],
     "assumptions": [
         "gpython user classes do not dispatch __add__/__lt__/__bool__/__call__: operand order is observed through ev(i, v) calls and through __getitem__/__setitem__/__getattr__/__setattr__/__contains__ of probe classes",
-        "fragment: no keyword/star arguments, no starred targets, no 3-argument slices, no comprehensions, lambdas are created but not called, no del; these forms are neither modelled nor generated",
+        "fragment: no comprehensions, no closures (a nested function capturing a parameter: LOAD_CLOSURE/LOAD_DEREF/MAKE_CLOSURE), no decorators/annotations, def bodies are a single return, no ExtSlice (a[i, j:k]), no list-syntax targets; these forms are neither modelled nor generated",
+        "a function call is one abstract primitive in the proofs (binding arguments to parameters, creating the frame); that the body of a called lambda/def is evaluated by the same rules is proved for its code object on its own (lambdaBody_correct) and tied by the run (model side runs the model VM on the body's code object, reference side the definitional interpreter)",
+        "the qualified-name constant pushed before MAKE_FUNCTION is modelled by its last component only (harness strips '<outer>.<locals>.')",
         "programs whose reference value would involve floats, bool arithmetic (C07-K01), tuple/list concatenation or ordering (C13/C17 territory), str %, 'is' on non-singletons, int-keyed dicts, sets' contents are compile-tie only",
         "py/arithmetic.go dispatch (dispatch_spec) is a separate small model tied by C07's correspondence run, not by this one",
     ],
